@@ -323,7 +323,12 @@ class Gen:
     @staticmethod
     def rust_docs(docs, ind):
         out = []
-        for x in docs:
+        # doc attributes do not have to come first: every third documented item carries another attribute
+        # before its docs, every third one between its doc lines (deterministic in the doc text)
+        pos = (sum(len(x["text"]) for x in docs) % 3) if docs else 2
+        for i, x in enumerate(docs):
+            if (pos == 0 and i == 0) or (pos == 1 and i == 1):
+                out.append("%s#[allow(dead_code)]" % ind)
             if x["form"] == "sl":
                 out.append("%s///%s" % (ind, x["text"]))
             elif x["form"] == "block":
